@@ -123,6 +123,8 @@ def _discharge(F, inst, ev, kind):
                     if lo <= hi:
                         return "B-range", "int_in_range(%d..=%d): constant bounds, non-empty in this configuration" % (lo, hi)
                     return None, "int_in_range(%d..=%d): the range is empty in this configuration, arbitrary asserts start <= end" % (lo, hi)
+                if lo == 0 and re.match(r"^core::ops::range::RangeInclusive<u(8|16|32|64|128|size)>$", r.get("ty") or ""):
+                    return "B-range-unsigned", "int_in_range(0..=x) over an unsigned type: 0 <= x for every x, the range is never empty"
             return None, "int_in_range requires a non-empty range; the bounds are not constants of this configuration"
         return None, "cannot locate the int_in_range call in typed HIR"
     return None, "no discharge rule for " + kind
